@@ -363,6 +363,11 @@ type DisconnectResult struct {
 	Unmined []chainhash.Hash // became unconfirmed again, credits intact
 	Removed []chainhash.Hash // coinbases of disconnected blocks and everything depending on them
 	Blocks  []Block          // the disconnected blocks that held known transactions (ascending height)
+	// ViaNonWallet is the subset of Removed that depends on a disconnected
+	// coinbase ONLY through outputs of the coinbase that are not wallet
+	// credits (classification aid for violation signatures; the transition
+	// itself does not distinguish).
+	ViaNonWallet []chainhash.Hash
 }
 
 // Disconnect: all blocks at height >= height are disconnected. C02: "their
@@ -390,8 +395,38 @@ func (l *Ledger) Disconnect(height int32) DisconnectResult {
 		res.Unmined = append(res.Unmined, h)
 	}
 	sort.Slice(res.Blocks, func(i, j int) bool { return res.Blocks[i].Height < res.Blocks[j].Height })
+	v := l.View()
 	gone := append([]chainhash.Hash{}, coinbases...)
-	gone = append(gone, l.View().Descendants(coinbases, nil)...)
+	gone = append(gone, v.Descendants(coinbases, nil)...)
+	// classification: what is reachable when the first hop leaves the
+	// coinbase through a credited output
+	viaCredit := map[chainhash.Hash]bool{}
+	for _, cb := range coinbases {
+		var first []chainhash.Hash
+		for _, c := range v.Children(cb) {
+			for _, in := range c.Msg.TxIn {
+				if _, ok := l.Txs[cb].Credits[in.PreviousOutPoint.Index]; ok && in.PreviousOutPoint.Hash == cb {
+					first = append(first, c.Hash)
+					break
+				}
+			}
+		}
+		for _, h := range first {
+			viaCredit[h] = true
+		}
+		for _, h := range v.Descendants(first, nil) {
+			viaCredit[h] = true
+		}
+	}
+	isCB := map[chainhash.Hash]bool{}
+	for _, cb := range coinbases {
+		isCB[cb] = true
+	}
+	for _, h := range gone {
+		if !isCB[h] && !viaCredit[h] {
+			res.ViaNonWallet = append(res.ViaNonWallet, h)
+		}
+	}
 	res.Removed = l.remove(gone)
 	// a transaction listed as "became unconfirmed" that then disappeared is
 	// only reported as removed
@@ -544,9 +579,9 @@ type Utxo struct {
 type LeaseMode int
 
 const (
-	LeasesByExpiry  LeaseMode = iota // the property: live iff now < expiry
-	LeasesIgnored                    // as if nothing was leased
-	LeasesAllLive                    // as if every entry, expired or not, was live
+	LeasesByExpiry LeaseMode = iota // the property: live iff now < expiry
+	LeasesIgnored                   // as if nothing was leased
+	LeasesAllLive                   // as if every entry, expired or not, was live
 )
 
 func (l *Ledger) leasedMode(op wire.OutPoint, now time.Time, mode LeaseMode) bool {
@@ -786,8 +821,8 @@ func (l *Ledger) Range(begin, end int32) []Group {
 
 // Topological-order verdicts.
 const (
-	TopoOK              = ""
-	TopoNotPermutation  = "not-permutation"
+	TopoOK                = ""
+	TopoNotPermutation    = "not-permutation"
 	TopoChildBeforeParent = "child-before-parent"
 )
 
